@@ -142,67 +142,141 @@ def run(chk):
         e = prog.bodies[enc[0]]
         st = prog.structs["humphrey_ws::frame::Frame"]["fields"]
         li = next(i for i, x in enumerate(st) if x["name"] == "length")
-        th = []
-        for s in range(len(e.blocks)):
-            t = e.term(s)
-            if t and t["k"] == "switch" and t.get("discr_ty") == "bool":
-                d = describe(prog, e, t["discr"])
-                if d[0] == "bin" and d[1] in ("Lt", "Le", "Gt", "Ge") and desc_contains(d, lambda y: y[0] == "field" and y[2] == li):
-                    c = d[3] if d[3][0] == "lit" else d[2]
-                    v = c[1] if c[0] == "lit" and isinstance(c[1], int) else None
-                    if v is None:
-                        th.append(("?", d[1], panics.short_desc(c)))
-                        continue
-                    # normalise to "length < N"
-                    if d[1] == "Le":
-                        v += 1
-                    if d[1] in ("Lt", "Le") and d[2][0] != "lit":
-                        th.append(v)
-                    elif d[1] in ("Gt", "Ge") and d[2][0] == "lit":
-                        th.append(v + (0 if d[1] == "Gt" else 1))
-                    else:
-                        th.append(("?", d[1], v))
-        chk.ob("R2.encoder", enc[0], "length-form thresholds are `< 126` and `< 65536` (shortest form)", sorted(x for x in th if isinstance(x, int)) == [126, 65536] and len(th) == 2,
-               f"encoder compares the length against {th}")
-        # stores into buf[0], buf[1]
-        shifts = {0: set(), 1: set()}
-        markers = set()
+        # ---- emission events: what is written at which position of the output, under which length class
+        fi = {x["name"]: i for i, x in enumerate(st)}
+
+        def length_interval(blk):
+            """[lo, hi] allowed for f.length at blk by the dominating comparisons (hi None = unbounded)."""
+            lo, hi = 0, None
+            for (a_, op, r_) in panics.cmp_facts(prog, e, blk):
+                for x, o_, y in ((a_, op, r_), (r_, {"<": ">", "<=": ">=", ">": "<", ">=": "<=", "==": "==", "!=": "!="}.get(op, op), a_)):
+                    x = panics._strip(x)
+                    if isinstance(x, tuple) and x[0] == "field" and x[2] == li and isinstance(y, tuple) and y[0] == "lit" and isinstance(y[1], int):
+                        v = y[1]
+                        if o_ == "<":
+                            hi = v - 1 if hi is None else min(hi, v - 1)
+                        elif o_ == "<=":
+                            hi = v if hi is None else min(hi, v)
+                        elif o_ == ">":
+                            lo = max(lo, v + 1)
+                        elif o_ == ">=":
+                            lo = max(lo, v)
+            return (lo, hi)
+        events = []
+        for blk, t in e.calls_to(r"Vec::<T, A>::push$"):
+            events.append((blk, "push", describe(prog, e, t["args"][1]), t["args"][1]))
+        for blk, t in e.calls_to(r"Vec::<T, A>::extend_from_slice$|Extend<.*>>::extend$"):
+            events.append((blk, "extend", describe(prog, e, t["args"][1]), t["args"][1]))
+        stores = {}
         for blk_i, blk in enumerate(e.blocks):
-            for s in blk["stmts"]:
-                if "pl" in s and s["pl"]["p"] and s["pl"]["p"][0][0] == "d" and s["rv"]["k"] in ("bin", "use"):
-                    # which byte: the index_mut call defining the pointer
-                    ptr = s["pl"]["l"]
-                    ds = e.defs().get(ptr, [])
+            for s_ in blk["stmts"]:
+                if "pl" in s_ and s_["pl"]["p"] and s_["pl"]["p"][0][0] == "d" and s_["rv"]["k"] in ("bin", "use"):
+                    ptr = s_["pl"]["l"]
                     idx = None
-                    for d_ in ds:
+                    for d_ in e.defs().get(ptr, []):
                         if d_[2] == "call" and "index_mut" in (d_[3].get("callee") or ""):
                             iv = describe(prog, e, d_[3]["args"][1])
                             idx = iv[1] if iv[0] == "lit" else None
-                    if idx is None:
-                        continue
-                    d = core.describe_rv(prog, e, s["rv"])
-                    for h in find(d, lambda y: y[0] == "bin" and y[1] in ("Shl", "ShlUnchecked") and y[3][0] == "lit"):
-                        shifts[idx].add(h[3][1])
-                    if idx == 1:
-                        for h in find(d, lambda y: y[0] == "bin" and y[1] == "BitOr"):
-                            for side in (h[2], h[3]):
-                                if side[0] == "lit":
-                                    markers.add(side[1])
-        chk.ob("R5.header_bits", enc[0], "byte 0 is fin<<7 | rsv0<<6 | rsv1<<5 | rsv2<<4 | opcode", shifts[0] == {7, 6, 5, 4}, f"shifts used for byte 0: {sorted(shifts[0])}")
-        chk.ob("R5.header_bits", enc[0], "byte 1 is mask<<7 | length-or-marker", shifts[1] == {7}, f"shifts used for byte 1: {sorted(shifts[1])}")
-        chk.ob("R2.encoder", enc[0], "extended-length markers are 126 and 127", markers == {126, 127}, f"markers {sorted(markers)}")
+                    if idx is not None:
+                        stores.setdefault(idx, []).append((blk_i, core.describe_rv(prog, e, s_["rv"])))
+        inits = [describe(prog, e, t["args"][1]) for blk, t in e.calls_to(r"vec::from_elem$")]
+
+        def position(blk):
+            """Number of single-byte pushes that precede this event on every path, if nothing of variable size precedes it."""
+            before = [ev for ev in events if ev[0] != blk and e.dominates(ev[0], blk)]
+            if any(ev[1] == "extend" for ev in before):
+                return None
+            return len(before)
+        byte = {0: [], 1: []}
+        for idx in (0, 1):
+            for blk_i, d in stores.get(idx, []):
+                byte[idx].append((blk_i, d))
+        base = 2 if inits == [("lit", 2)] else (0 if not inits else None)
+        if base == 0:
+            for blk, kind, d, op_ in events:
+                if kind == "push" and position(blk) in (0, 1):
+                    byte[position(blk)].append((blk, d))
+        chk.ob("R5.header_bits", enc[0], "the two header bytes are written first (indexed stores into vec![0; 2], or the first two pushes)", base is not None and len(byte[0]) == 1 and len(byte[1]) >= 1,
+               f"initial buffer {inits}; byte 0 written at {len(byte[0])} site(s), byte 1 at {len(byte[1])}")
+
+        def shl_terms(d):
+            """{shift amount: field name} over the `|`-terms of a header byte, plus the unshifted terms."""
+            out, plain = {}, []
+
+            def field_name(x):
+                x = panics._strip(x)
+                for y in core.desc_nodes(x) if hasattr(core, "desc_nodes") else []:
+                    pass
+                names = []
+
+                def walk(z):
+                    if isinstance(z, tuple):
+                        if z[0] == "field" and isinstance(z[2], int) and z[1][0] in ("param",):
+                            names.append(next((k for k, v in fi.items() if v == z[2]), None))
+                        if z[0] == "index" and isinstance(z[1], tuple):
+                            walk(z[1])
+                            names.append(("idx", z[2][1] if isinstance(z[2], tuple) and z[2][0] == "lit" else None))
+                            return
+                        for w_ in z[1:]:
+                            walk(w_)
+                    elif isinstance(z, list):
+                        for w_ in z:
+                            walk(w_)
+                walk(x)
+                return tuple(n for n in names if n is not None)
+
+            def rec(x):
+                if isinstance(x, tuple) and x[0] == "bin" and x[1] == "BitOr":
+                    rec(x[2])
+                    rec(x[3])
+                elif isinstance(x, tuple) and x[0] == "bin" and x[1] in ("Shl", "ShlUnchecked") and x[3][0] == "lit":
+                    out[x[3][1]] = field_name(x[2])
+                elif isinstance(x, tuple) and x[0] == "lit":
+                    plain.append(("lit", x[1]))
+                else:
+                    plain.append(("val", field_name(x)))
+            rec(d)
+            return out, plain
+        for blk, d in byte[0]:
+            sh, plain = shl_terms(d)
+            want = {7: ("fin",), 6: ("rsv", ("idx", 0)), 5: ("rsv", ("idx", 1)), 4: ("rsv", ("idx", 2))}
+            chk.ob("R5.header_bits", enc[0], "byte 0 is fin<<7 | rsv0<<6 | rsv1<<5 | rsv2<<4 | opcode", sh == want and plain == [("val", ("opcode",))],
+                   f"byte 0 = {sh} | {plain}", where=e.where(blk))
+        seen_classes = {}
+        for blk, d in byte[1]:
+            sh, plain = shl_terms(d)
+            lo, hi = length_interval(blk)
+            ok_mask = sh == {7: ("mask",)}
+            kind = None
+            if plain == [("val", ("length",))]:
+                kind = "7-bit length"
+                ok_cls = (lo, hi) == (0, 125)
+            elif plain == [("lit", 126)]:
+                kind = "marker 126"
+                ok_cls = (lo, hi) == (126, 65535)
+            elif plain == [("lit", 127)]:
+                kind = "marker 127"
+                ok_cls = (lo, hi) == (65536, None)
+            else:
+                ok_cls = False
+            seen_classes[kind] = (lo, hi)
+            chk.ob("R5.header_bits", enc[0], f"byte 1 is mask<<7 | {kind or 'length-or-marker'}", ok_mask and kind is not None, f"byte 1 = {sh} | {plain}", where=e.where(blk))
+            chk.ob("R2.encoder", enc[0], f"{kind or 'byte 1 form'} is used exactly on its length range (shortest form)", ok_cls, f"used for lengths {lo}..{hi if hi is not None else 'max'}", where=e.where(blk))
+        chk.ob("R2.encoder", enc[0], "the three length forms (7-bit, marker 126, marker 127) are all present", set(seen_classes) == {"7-bit length", "marker 126", "marker 127"}, f"{sorted(str(k) for k in seen_classes)}")
         # extended length bytes
         be = [(blk, t) for blk, t in e.calls_to(r"num::<impl u(16|64)>::to_(be|le|ne)_bytes$")]
         tys = sorted((t["callee"].split("impl ")[1].split(">")[0], t["callee"].rsplit("::", 1)[1]) for blk, t in be)
         chk.ob("R2.encoder", enc[0], "extended lengths are u16 / u64 big-endian", tys == [("u16", "to_be_bytes"), ("u64", "to_be_bytes")], f"{tys}")
         for blk, t in be:
             ty = t["callee"].split("impl ")[1].split(">")[0]
-            gs = core.guards_dominating(prog, e, blk)
-            # u16 form must be under (length >= 126 && length < 65536); u64 under length >= 65536
-            lt = [(lab, d) for s, lab, d, info in gs if d[0] == "bin" and d[1] in ("Lt", "Le")]
-            under = sorted(((d[3][1] if d[3][0] == "lit" else -1), lab) for lab, d in lt)
-            want = [(126, "false"), (65536, "true")] if ty == "u16" else [(126, "false"), (65536, "false")]
-            chk.ob("R2.encoder", enc[0], f"{ty} form is used exactly on its length range", under == want, f"{ty} bytes are emitted under {under}", where=e.where(blk))
+            lo, hi = length_interval(blk)
+            want = (126, 65535) if ty == "u16" else (65536, None)
+            src = describe(prog, e, t["args"][0])
+            chk.ob("R2.encoder", enc[0], f"{ty} form is used exactly on its length range", (lo, hi) == want and desc_contains(src, lambda y: y[0] == "field" and y[2] == li),
+                   f"{ty} bytes of {panics.short_desc(src)} are emitted for lengths {lo}..{hi if hi is not None else 'max'}", where=e.where(blk))
+            emitted = [ev for ev in events if ev[1] == "extend" and desc_contains(ev[2], lambda y: y[0] == "call" and len(y) > 3 and y[3] == blk)]
+            after_marker = any(e.dominates(b1, blk) for b1, _ in byte[1]) or bool(stores.get(1))
+            chk.ob("R2.encoder", enc[0], f"the {ty} length bytes are appended right after the marker byte", len(emitted) == 1 and after_marker, f"{len(emitted)} extend site(s)", where=e.where(blk))
     # ---- R4 Message::to_frame
     tfm = prog.bodies.get("humphrey_ws::message::Message::to_frame")
     chk.floor("Message::to_frame", 1 if tfm else 0, 1)
